@@ -108,6 +108,8 @@ MUTATIONS = {
         ('decode', 'tonic/src/codec/decode.rs', r'(\n\s*)self\.buf\.reserve\(len\);', r'', 'n/a'),
     ],
     'C07': [
+        ('codecbuf', 'tonic/src/codec/buffer.rs', r'if ret\.len\(\) > self\.len \{', 'if ret.len() < self.len {', 'the decoder is shown bytes beyond the frame'),
+        ('codecbuf', 'tonic/src/codec/buffer.rs', r'self\.buf\.advance\(cnt\);\n        self\.len -= cnt;', 'self.buf.advance(cnt);', 'advance forgets to shrink the window'),
         ('prostcodec', 'tonic/src/codec/prost.rs', r'Status::internal\(error\.to_string\(\)\)', 'Status::unknown(error.to_string())', 'a protobuf parse error is reported as UNKNOWN'),
         ('decode', 'tonic/src/codec/decode.rs', r'Err\(Status::internal\("Unexpected EOF decoding stream\."\)\)', 'Ok(None)', 'a truncated stream ends cleanly'),
         ('decode', 'tonic/src/codec/decode.rs', r'f => \{\s*trace!\("unexpected compression flag"\);', 'f if f > 2 => {\n                    trace!("unexpected compression flag");', 'flag 2 is not refused (no arm: must be at least undecided)'),
